@@ -252,6 +252,7 @@ func cmdCheck(argv []string) int {
 		} else {
 			for _, o := range u.VC.obligations {
 				o.Props = u.Props
+				o.Unit = u.Name
 				o.Sweep = u.Ct.Sweep
 				if u.Ct.Expect == "fail" {
 					o.Expect = "canary"
@@ -301,7 +302,7 @@ func cmdCheck(argv []string) int {
 	// per-unit tallies; canary units must have at least one failing obligation
 	byUnit := map[string][]*Obligation{}
 	for _, o := range obls {
-		byUnit[o.Func] = append(byUnit[o.Func], o)
+		byUnit[o.Unit] = append(byUnit[o.Unit], o)
 		res.SolverTimeS += o.TimeS
 	}
 	var final []*Obligation
